@@ -251,6 +251,53 @@ slab_c (int m)
     free (hs[i]);
 }
 
+/* (e) a byte whose low seven bits are all zero or all one at position POS (0x80 / 0xFF: to a method that ignores the
+   8th bit these are a zero and a 0x7f key byte, not the end of the phrase): every other position of the window
+   (windows up to 128) or the neighbours, the middle and both ends (longer windows) must still take part */
+static void
+slab_e (int m, int pos)
+{
+  if (m == M_BCRYPT_A || m == M_BCRYPT_X)
+    return;                     /* $2a$/$2x$: what 8-bit input does there is the documented legacy quirk */
+  int W = window (m);
+  char P[520], Q[520], H[CRYPT_OUTPUT_SIZE], rp[48];
+  unsigned char pv[12];
+  static const unsigned char xs[2] = { 0x80, 0xff };
+  for (int xi = 0; xi < 2; xi++)
+    {
+      base_phrase (m, P, (size_t) W);
+      P[pos] = (char) xs[xi];
+      char *h = hash (P, bases[m].s, d1);
+      if (!h)
+        vh_internal ("base hash failed for %s", bases[m].s);
+      strcpy (H, h);
+      snprintf (rp, sizeof rp, "e:%d:%d", m, pos);
+      int qs[8], nq = 0;
+      if (W > 128)
+        {
+          int cand[6] = { pos + 1, pos + 2, pos - 1, 0, W - 1, (pos + W) / 2 };
+          for (int i = 0; i < 6; i++)
+            if (cand[i] >= 0 && cand[i] < W && cand[i] != pos)
+              qs[nq++] = cand[i];
+        }
+      for (int q = 0; q < (W > 128 ? nq : W); q++)
+        {
+          int qq = W > 128 ? qs[q] : q;
+          if (qq == pos)
+            continue;
+          if (!perturb (m, (unsigned char) P[qq], pv))
+            continue;
+          memcpy (Q, P, (size_t) W + 1);
+          Q[qq] = (char) pv[0];
+          char *g = hash (Q, H, d2);
+          vh_stat ("perturbations", 1);
+          vh_stat ("perturbations_after_special_byte", 1);
+          if (g && !strcmp (g, H))
+            false_accept (m, xi ? "byte-change-with-0xff-elsewhere" : "byte-change-with-0x80-elsewhere", (size_t) W, qq, pv[0], rp, H, g);
+        }
+    }
+}
+
 /* (d) salt: every single-character change, and a cost step */
 static int numeric_cost_differs;   /* the two settings spell numerically different costs: equal hash parts are a violation even when the echoed settings coincide */
 static void
@@ -327,6 +374,8 @@ main (int argc, char **argv)
         slab_a (a, b);
       else if (sscanf (vh_replay, "b:%d:%d", &a, &b) == 2)
         slab_b (a, b);
+      else if (sscanf (vh_replay, "e:%d:%d", &a, &b) == 2)
+        slab_e (a, b);
       else if (sscanf (vh_replay, "c:%d", &a) == 1)
         slab_c (a);
       else if (sscanf (vh_replay, "d:%d", &a) == 1)
@@ -373,6 +422,21 @@ main (int argc, char **argv)
                 vh_sample ("{\"slab\":\"a\",\"method\":\"%s\",\"phrase_len\":%d,\"position\":%d,\"perturbations\":\"bit0, bit6, low-7-bit change, bit7 where significant\"}",
                            vh_methods[m].name, W, pos);
             }
+        }
+    }
+  for (int m = 0; m < M_COUNT && !vh_expired (); m++)
+    {
+      int W = window (m);
+      for (int pos = 0; pos < W; pos++)
+        {
+          int inlb = 0;
+          for (int i = 0; i < VH_NLB; i++)
+            if (vh_Lb[i] == pos)
+              inlb = 1;
+          if (W > 128 && !inlb && !(vh_thorough && m != M_SUNMD5))
+            continue;
+          if (vh_mine (idx++))
+            slab_e (m, pos);
         }
     }
   vh_done ();
